@@ -28,7 +28,7 @@ pub fn replay(prop: &str, _label: &str, path: &Path) -> Result<CheckResult, Stri
 pub fn run(prop: &str, tier: Tier, seed: u64) -> i32 {
   let which = tag_of(prop);
   let rule = match which {
-    Tag::C10 => "proptest-generated op sequences (add_node/add_edge/re-add/remove_edge/remove_outgoing/remove_node incl. removed nodes and self edges) vs naive reference graph, all assertions after every op; non-trivial = sequence with an accepted back-insertion that changed the rank of >=3 nodes, or a rejected cycle of length >=3 after a removal; distinct by case hash",
+    Tag::C10 => "proptest-generated op sequences (add_node/add_edge/re-add/remove_edge/remove_outgoing/remove_node incl. removed nodes and self edges) vs naive reference graph, all assertions after every op; plus long histories (500-1500 ops in the quick tier, up to 4000 in the thorough tier) of insertions and removals on graphs of <=8 nodes, so that state which only builds up over hundreds of reordering insertions is reached; non-trivial = sequence with an accepted back-insertion that changed the rank of >=3 nodes, or a rejected cycle of length >=3 after a removal; distinct by case hash",
     Tag::C11 => "same sequences, which also contain generated single queries (any kind, any pair, or a repetition of a recent query) compared on the spot; the sweep of all pair/adjacency/descendant/topo_cmp queries runs after every op, or - in half of the cases - only after every k-th op / at the end, so that single queries meet whatever earlier queries and mutators left behind; plus exhaustive enumeration of mutator/reachability-query interleavings; non-trivial = re-insertion of an existing edge that is not last in an adjacency list of >=2, or a removal that leaves the source with other edges; distinct by case hash",
   };
   let mut report = Report::new(prop, tier, seed, "exploration", rule);
@@ -41,6 +41,14 @@ pub fn run(prop: &str, tier: Tier, seed: u64) -> i32 {
   let cfg = SearchCfg { prop, label: "ops", seed, shards, cases_per_shard: cases, max_shrink_iters: 4000 };
   let (stats, found) = driver::search(&cfg, &known, || dag::case_strategy(max_init, max_ops), |c, s| check(c, which, s), |c| dag::pretty(c));
   report.absorb("ops", stats, found);
+  // Long histories on small graphs.
+  if report.violations.is_empty() {
+    let (shards, cases, min_ops, max_ops) = match tier { Tier::Quick => (16, 40, 500, 1500), Tier::Thorough => (16, 1500, 500, 4000) };
+    let cfg = SearchCfg { prop, label: "ops", seed: seed ^ 0x10f6, shards, cases_per_shard: cases, max_shrink_iters: 600 };
+    let (stats, found) = driver::search(&cfg, &known, || dag::long_case_strategy(7, min_ops, max_ops), |c, s| { let r = check(c, which, s); s.class("long_history_case"); r }, |c| dag::pretty(c));
+    report.extra.insert("long_history_cases".into(), json!(stats.evaluations));
+    report.absorb("ops", stats, found);
+  }
   // Small-scope exhaustive enumeration.
   let scopes: &[(u8, usize)] = match tier {
     Tier::Quick => &[(2, 1), (2, 2), (2, 3), (2, 4), (3, 1), (3, 2), (3, 3)],
